@@ -17,6 +17,13 @@
 #include <pistache/common.h>
 #include <pistache/os.h>
 
+#ifdef PISTACHE_VERIF_HOOKS
+#include <pistache/verif_hooks.h>
+#endif
+#ifndef PISTACHE_VERIF_YIELD
+#define PISTACHE_VERIF_YIELD(tag) ((void)0)
+#endif
+
 namespace Pistache
 {
 
@@ -220,13 +227,16 @@ namespace Pistache
             Entry* entry = new Entry(std::forward<U>(u));
             // @Note: we're using SC atomics here (exchange will issue a full fence),
             // but I don't think we should bother relaxing them for now
+            PISTACHE_VERIF_YIELD("queue.push:before-exchange");
             auto* prev = head.exchange(entry);
+            PISTACHE_VERIF_YIELD("queue.push:before-link");
             prev->next = entry;
         }
 
         virtual Entry* pop()
         {
             auto* res  = tail;
+            PISTACHE_VERIF_YIELD("queue.pop:before-next-load");
             auto* next = res->next.load(std::memory_order_acquire);
             if (next)
             {
@@ -300,6 +310,7 @@ namespace Pistache
 
             if (isBound())
             {
+                PISTACHE_VERIF_YIELD("pollable.push:before-notify");
                 uint64_t val = 1;
                 TRY(write(event_fd, &val, sizeof val));
             }
@@ -311,6 +322,7 @@ namespace Pistache
 
             if (isBound())
             {
+                PISTACHE_VERIF_YIELD("pollable.pop:before-drain");
                 uint64_t val;
                 for (;;)
                 {
